@@ -61,7 +61,16 @@ def firenow_cases(D):
     out.append(("forced-backoff-firenow-while-connected", "conn %%s mode=conc lazy=1 window=%d %s script=cmd/1/ok/0/nowait;settle;force/2/nowait;settle;cmd/3/ok/1/nowait;settle;awaitall;settle" % (D, base)))
     out.append(("window-zero", "conn %s mode=seq lazy=1 window=0 dials=ok conns=ok script=cmd/1/ok/0/nowait;settle;disconnect;settle;cmd/2/ok/0/nowait;longsettle/90;awaitall;settle"))
     out.append(("forced-initial-backoff", "conn %%s mode=seq lazy=1 forcebackoff=1 window=%d %s script=cmd/1/ok/1/nowait;settle;awaitall;settle" % (D, base)))
-    # the handler is slow to announce: the fire-now command arrives while the sequence is in OnDisconnected
+    # the handler is slow to announce: fire-now commands arrive while the sequence is inside OnDisconnected (the timer does not
+    # exist yet); one of them, or one of two, gives up before the handler returns - the request of whoever still waits stands
+    for name, pre, post in (("announce-one", ["cmd/1/ok/1/nowait"], []),
+                            ("announce-two-first-cancelled", ["cmd/1/ok/1/nowait", "waitev/waiting~1~/1", "cmd/2/ok/1/nowait", "waitev/waiting~2~/1"], ["cancelcmd/1", "settle"]),
+                            ("announce-two-second-cancelled", ["cmd/1/ok/1/nowait", "waitev/waiting~1~/1", "cmd/2/ok/1/nowait", "waitev/waiting~2~/1"], ["cancelcmd/2", "settle"]),
+                            ("announce-plain-then-firenow-cancelled", ["cmd/1/ok/1/nowait", "waitev/waiting~1~/1", "cmd/2/ok/0/nowait", "waitev/waiting~2~/1"], ["cancelcmd/2", "settle"])):
+        s = ["holddisc"] + pre + ["waitev/ondisconnected-held/1"] + post + ["releasedisc", "settle", "awaitall", "settle"]
+        out.append((name, "conn %%s mode=conc lazy=1 firstdelay=%d %s script=%s" % (D, base, ";".join(s))))
+        s2 = ["cmd/9/ok/0/nowait", "settle", "awaitall", "disconnect", "settle", "holddisc"] + pre + ["waitev/ondisconnected-held/1"] + post + ["releasedisc", "settle", "awaitall", "settle"]
+        out.append((name + "-window", "conn %%s mode=conc lazy=1 window=%d dials=ok,ok conns=ok,ok script=%s" % (D, ";".join(s2))))
     return out
 
 
